@@ -667,8 +667,8 @@ def component_strategy(classes):
 def plan(tier):
     if tier == "quick":
         return [
-            {"part": "components", "shards": 10, "budget": {"n_examples": 300}},
-            {"part": "simulation", "shards": 3, "budget": {"n_examples": 60}},
+            {"part": "components", "shards": 10, "budget": {"n_examples": 1000}},
+            {"part": "simulation", "shards": 3, "budget": {"n_examples": 250}},
             {"part": "imports", "shards": 8, "budget": {}},
         ]
     return [
